@@ -6,7 +6,7 @@ VERIF = os.path.dirname(os.path.dirname(os.path.abspath(__file__)))
 names = sys.argv[1:] or sorted(os.listdir(os.path.join(VERIF, "seeded")))
 for name in names:
     d = os.path.join(VERIF, "seeded", name)
-    if not os.path.exists(os.path.join(d, "patch.diff")):
+    if not os.path.exists(os.path.join(d, "patch.diff")) or name.startswith("benign"):
         continue
     agent = json.load(open(os.path.join(d, "agent_meta.json"))) if os.path.exists(os.path.join(d, "agent_meta.json")) else {}
     prop = name.split("-")[0]
